@@ -273,6 +273,8 @@ func (t *TinyLfu[K, V]) spec_evictFromMain(candidate *Entry[K, V]) {
 	ensures("inv", sp_policyInv(t))
 	ensures("fits", t.weightedSize <= t.capacity)
 	ensures("only_removes", sp_onlyRemoves(t))
+	// C06 "nothing is evicted while the live cost is within MaxSize"
+	ensures("idle_when_fits", imp(old(t.weightedSize) <= t.capacity, all(func(x *Entry[K, V]) bool { return sp_tracked(t, x) == old(sp_tracked(t, x)) })))
 	// C15: the from-secondary mark of every entry is left alone
 	ensures("nvm_kept", all(func(x *Entry[K, V]) bool { return x.flag.Flags&16 == old(x.flag.Flags)&16 }))
 }
@@ -280,6 +282,7 @@ func (t *TinyLfu[K, V]) spec_evictFromMain(candidate *Entry[K, V]) {
 func (t *TinyLfu[K, V]) spec_evictFromMain_loop1(candidate, victim *Entry[K, V], victimQueue, candidateQueue uint8) {
 	invariant("inv", sp_policyInv(t))
 	invariant("only_removes", sp_onlyRemoves(t))
+	invariant("idle_when_fits", imp(old(t.weightedSize) <= t.capacity, t.weightedSize == old(t.weightedSize) && all(func(x *Entry[K, V]) bool { return sp_tracked(t, x) == old(sp_tracked(t, x)) })))
 	invariant("nvm_kept", all(func(x *Entry[K, V]) bool { return x.flag.Flags&16 == old(x.flag.Flags)&16 }))
 	invariant("queues", (victimQueue == LIST_PROBATION || victimQueue == LIST_PROTECTED || victimQueue == LIST_WINDOW) &&
 		(candidateQueue == LIST_PROBATION || candidateQueue == LIST_WINDOW))
@@ -305,6 +308,7 @@ func (t *TinyLfu[K, V]) spec_EvictEntries() {
 	}))
 	ensures("caps", t.window.capacity == old(t.window.capacity) && t.slru.protected.capacity == old(t.slru.protected.capacity))
 	ensures("nvm_kept", all(func(x *Entry[K, V]) bool { return x.flag.Flags&16 == old(x.flag.Flags)&16 }))
+	ensures("idle_when_fits", imp(old(t.weightedSize) <= t.capacity, all(func(x *Entry[K, V]) bool { return sp_tracked(t, x) == old(sp_tracked(t, x)) })))
 }
 
 // ---- cost update ----------------------------------------------------------------------------------------------
@@ -338,6 +342,8 @@ func (t *TinyLfu[K, V]) spec_UpdateCost(entry *Entry[K, V], weightChange int64) 
 		return imp(sp_tracked(t, x), old(sp_tracked(t, x))) && x.policyWeight == old(x.policyWeight)
 	}))
 	ensures("nvm_kept", all(func(x *Entry[K, V]) bool { return x.flag.Flags&16 == old(x.flag.Flags)&16 }))
+	// C06: an update whose new cost fits, in a cache that still fits, evicts nothing
+	ensures("no_eviction_without_pressure", imp(old(t.weightedSize)+uint(weightChange) <= t.capacity && entry.policyWeight <= int64(t.capacity), all(func(x *Entry[K, V]) bool { return sp_tracked(t, x) == old(sp_tracked(t, x)) })))
 }
 
 // ---- insertion ---------------------------------------------------------------------------------------------------
@@ -356,4 +362,7 @@ func (t *TinyLfu[K, V]) spec_Set(entry *Entry[K, V]) {
 	}))
 	ensures("sketch", sp_sketchInv(t.sketch))
 	ensures("nvm_kept", all(func(x *Entry[K, V]) bool { return x.flag.Flags&16 == old(x.flag.Flags)&16 }))
+	// C06: an insert that fits evicts nothing and the new entry is tracked
+	ensures("no_eviction_without_pressure", imp(old(t.weightedSize)+uint(entry.policyWeight) <= t.capacity,
+		sp_tracked(t, entry) && all(func(x *Entry[K, V]) bool { return imp(x != entry, sp_tracked(t, x) == old(sp_tracked(t, x))) })))
 }
